@@ -194,7 +194,9 @@ class Gen:
                 chmap = {a: b for a, b in chmap.items() if a != b} or chmap      # partial mapping: identity implied
             sub = self.tree(depth - 1, inner, idxs)
             node = {'k': 'map', 'id': self.ident(0.25), 'chmap': chmap, 'sub': sub}
-            pm = self.pmap(sub, idxs) if rng.random() < 0.6 else None
+            if idxs and not free_names(sub) and rng.random() < 0.5:
+                force_idx(sub, rng.choice(idxs), _fr(F(rng.choice([-1, 1, 2]), 2)))
+            pm = self.pmap(sub, idxs) if rng.random() < 0.7 else None
             if pm:
                 node['pmap'] = pm
             names = sorted(meas_names(sub))
@@ -716,7 +718,7 @@ def gen_shape_cases(rng, n):
 
 
 # ---- convenience constructors -----------------------------------------------------------------------------------------
-CTORS = ['matmul', 'concat', 'appended', 'rep', 'pow', 'map', 'par', 'rev2', 'iter', 'pad', 'paratomic']
+CTORS = ['matmul', 'concat', 'appended', 'rep', 'pow', 'map', 'map', 'par', 'rev2', 'iter', 'pad', 'paratomic']
 
 
 def gen_ctor_cases(rng, n):
@@ -757,6 +759,8 @@ def gen_ctor_cases(rng, n):
             inner = g.tree(rng.randint(0, 2), chans, kinds=['seq', 'map', 'map'], idxs=['p'] if with_p else [])
             if inner['k'] == 'map' and rng.random() < 0.7:
                 inner['id'] = None
+            if with_p and 'p' not in free_names(inner):
+                force_idx(inner, 'p', '1/2')
             if 'p' in free_names(inner):
                 c['params'] = {'p': _fr(rng.choice([0, 1, 2, -1]))}
                 pm = g.pmap(inner, ['p'], p_self=1.0)
@@ -1219,18 +1223,35 @@ def histogram_keys(case, obs):
         keys += sorted({'S-by:' + s['by'] for s in case['S']})
         keys.append('G:' + (case['G']['k'] if case['G'] else 'none'))
         keys.append('program:none' if obs['plain'].get('none') else 'program:some')
+        keys.append('family:' + case.get('family', 'random'))
+        keys += [f for f in ('share', 'reuse', 'params') if case.get(f)]
+        pms = [I.node_at(t, p).get('pmap') or {} for p in I.all_paths(t)]
+        if any(pms):
+            keys.append('pmap')
+        if any(k in expr_names(e) for pm in pms for k, e in pm.items()):
+            keys.append('pmap-rebinds-name-to-itself')
+        if any(set(expr_names(e)) & (set(pm) - {k}) for pm in pms for k, e in pm.items()):
+            keys.append('pmap-swap')
         if obs['opt'].get('raise'):
             keys.append('opt-raises')
         elif any(v is None for o in (obs['opt'],) if not o.get('none') for l in o['samples'].values() for v in l):
             keys.append('opt-has-NaN')
     else:
         keys.append('ctor:' + case['op'])
+        if case.get('pmap'):
+            keys.append('ctor:map-with-parameter-mapping')
     return keys
 
 
+ATOMS = ('const', 'table', 'func', 'amc')
+
+
 def under_reversal(tree, eff):
-    """a collapsed node strictly below the inner template of a TimeReversalPT"""
+    """a collapsed COMPOSITE node strictly below the inner template of a TimeReversalPT (a collapsed atomic template
+    compiles to the very same leaf: C05_atom_collapse_identity; it is not part of the finding)"""
     for p in eff:
+        if I.node_at(tree, p)['k'] in ATOMS:
+            continue
         for i in range(len(p) - 1):            # ancestors excluding the parent position: rev at depth i, node deeper than i+1
             if I.node_at(tree, p[:i])['k'] == 'rev':
                 return True
